@@ -281,6 +281,8 @@ TAUTOMER_INPUTS = ['N1C=CC2=NC=NC2=C1', 'C1=CC2=NC=CC2=CN1', 'N1C=CC2=CC=NC2=C1'
                    'C1=CC2=CNC3=C4N=NC=C4N=C3C2=C1', 'C1=CC2=NC3=C4NC=NC=C4C=C3C2=C1', 'C1=CNC2=C3C(=CC2=C1)C=C1C=NC=C13']
 
 KEKULE_SPELLED = [
+    # two two-coordinate ring hetero atoms whose hydrogen count is KNOWN (0): no enumerated form may read them with a hydrogen
+    'B1=CC=BC=C1', 'B1=CC=BC2=CC=CC=C12', 'c1c[b]cc[b]1', '[b]1ccc[b]c1', 'P1=CC=PC=C1', 'N1=CC=NC=C1', 'c1c[n]cc[n]1', 'B1=CC=NC=C1', 'B1=CN=BC=C1',
     # Kekule spellings that thiele aromatises
     'C1=CNC=C1', 'C1=COC=C1', 'C1=CSC=C1', 'C1=CC=NC=C1', 'C1=CC=C2NC=CC2=C1', 'N1C=CC2=NC=CC2=C1', 'N1C=CN2C=CC=C12', 'O=C1C=CC(=O)C=C1', 'O=C1C=CNC=C1', 'C1=C[Se]C=C1',
     'C1=CC=C[CH-]1', 'C1=CC=[NH+]C=C1', 'C1=CC=[O+]C=C1', 'C1=CBC=C1', 'C1=CC=PC=C1', 'C1=CC=C2C=CC=CC2=C1', 'C1=CC=CC=CC=C1', 'C1=CC=CC=CC1', 'C1=CC=BC=C1',
@@ -984,6 +986,15 @@ class Pipe:
                                  f'kekule() / enumerate_kekule() changes a given hydrogen count: ring {at.atomic_symbol} charge {at.charge:+d} with {at.neighbors} neighbours '
                                  f'{at.implicit_hydrogens} -> {h2} H', label,
                                  {'form': str(f), 'H': hf}, {'kekule()': str(k), 'H': hk}, 'hydrogen counts of each enumerated form', fcode, {'atom': n})
+            if which == 'A':
+                # every hydrogen count of the aromatic form is known: an enumerated form that changes one is another molecule
+                for (n, at), h2 in zip(src_m.atoms(), hf):
+                    if at.implicit_hydrogens is not None and h2 is not None and at.implicit_hydrogens != h2:
+                        self.bad(clean, f'kekule-changes-given-H:{at.atomic_symbol}{at.charge:+d}:neighbors={at.neighbors}',
+                                 f'kekule() / enumerate_kekule() changes a given hydrogen count: ring {at.atomic_symbol} charge {at.charge:+d} with {at.neighbors} neighbours '
+                                 f'{at.implicit_hydrogens} -> {h2} H', label,
+                                 {'form': str(f), 'H': hf}, {'source': str(src_m), 'H': [x.implicit_hydrogens for _, x in src_m.atoms()]},
+                                 'hydrogen counts of each enumerated form against the given ones', fcode, {'atom': n})
             if n_cases < (4 if full else 1 if tag.split('/')[0] in ('curated', 'malformed', 'arenes.sdf') else 0):
                 n_cases += 1
                 j = f'{which}{n_cases}'
@@ -1442,6 +1453,44 @@ def domain_free_oracles(m, what):
     return out
 
 
+def grid_pair(sym, charge, rad, h):
+    """an aromatic six-ring with the probe atom state twice (positions 1 and 4)"""
+    from chython import MoleculeContainer
+    from chython.periodictable import Element
+    m = MoleculeContainer()
+    for i in range(1, 7):
+        if i in (1, 4):
+            m.add_atom(Element.from_symbol(sym)(charge=charge, is_radical=rad), i, _skip_calculation=True)
+        else:
+            m.add_atom('C', i, _skip_calculation=True)
+    for i in range(1, 7):
+        m.add_bond(i, i % 6 + 1, 4, _skip_calculation=True)
+    m.fix_structure()
+    m._atoms[1]._implicit_hydrogens = h
+    m._atoms[4]._implicit_hydrogens = h
+    return m
+
+
+def given_h_oracle(m, what):
+    """a hydrogen count that is given stays as it is in kekule() and in every enumerated form"""
+    from chython.exceptions import InvalidAromaticRing
+    given = {n: a.implicit_hydrogens for n, a in m._atoms.items() if a.implicit_hydrogens is not None}
+    out = []
+    try:
+        k = m.copy()
+        k.kekule()
+        forms = [('kekule()', k)] + [(f'enumerate_kekule() form {j}', f) for j, f in enumerate(itertools.islice(m.copy().enumerate_kekule(), 16), 1)]
+    except InvalidAromaticRing:
+        return out
+    except Exception as e:
+        return [f'{what}: raises {type(e).__name__}']
+    for name, f in forms:
+        ch = {n: (h, f._atoms[n].implicit_hydrogens) for n, h in given.items() if f._atoms[n].implicit_hydrogens not in (h, None)}
+        if ch:
+            out.append(f'{what}: {name} = {f} changes given hydrogen counts {{atom: (given, result)}} {ch}')
+    return out
+
+
 def directed_search(ck, failed, budget=24):
     """the disagreeing inputs and random renumberings of them go through the domain-free oracles and the acceptance
     must not depend on the numbering; returns the number of concrete failures reported"""
@@ -1453,6 +1502,17 @@ def directed_search(ck, failed, budget=24):
         if meta[0] == 'grid':
             for rad, h in meta[6]:
                 todo.append((repr(meta[:6] + (rad, h)), lambda meta=meta, rad=rad, h=h: grid_skeleton(meta[3], meta[4], meta[5], meta[1], meta[2], rad, h)))
+                if not meta[3] and not meta[4] and not meta[5] and h is not None:
+                    # the failing atom state twice in one ring: given hydrogens against kekule() and every enumerated form
+                    try:
+                        mp = grid_pair(meta[1], meta[2], rad, h)
+                    except Exception:
+                        continue
+                    for msg in given_h_oracle(mp, f'{mp} (atoms 1 and 4: {meta[1]} charge {meta[2]:+d} radical {rad} H {h})'):
+                        found += 1
+                        ck.counterexample(f'directed:given-H:{meta[1]}{meta[2]:+d}:H={h}:radical={rad}', msg,
+                                          {'input': str(mp), 'build': f'aromatic six-ring, atoms 1 and 4 = {meta[1]} charge {meta[2]} is_radical {rad} implicit_hydrogens {h}'},
+                                          msg, 'given hydrogen counts unchanged', 'hydrogen counts before / after (directed search)')
         else:
             label = meta[2] if meta[0] in ('kekule_rel', 'thiele_rel') else meta[1]
             if not label.startswith('arenes.sdf'):
